@@ -15,7 +15,7 @@ use serde_json::json;
 use std::collections::BTreeMap;
 use std::sync::{Arc, Mutex};
 
-const N_ANSWERS: u32 = 5;
+const N_ANSWERS: u32 = 6;
 
 fn answer(idx: u32, token: u64) -> Result<RV, RErr> {
     match idx {
@@ -23,8 +23,13 @@ fn answer(idx: u32, token: u64) -> Result<RV, RErr> {
         1 => Ok(RV::Bool(false)),
         2 => Ok(RV::None),
         3 => Ok(RV::Int(7)),
+        4 => Ok(RV::float(f64::NAN)),
         _ => Err(RErr::UserFunctionError(String::new(), token)),
     }
+}
+
+fn fixed_container() -> RV {
+    RV::map(&[("a", RV::Int(1)), ("l", RV::List(vec![RV::Int(2)]))])
 }
 
 #[derive(Default)]
@@ -149,6 +154,9 @@ fn shapes(tier: Tier) -> Vec<Shape> {
         ("SameCacheableCallTwice/List", RE::List(vec![RE::call("k", RE::call("p", RE::Val(RV::Int(0)))), RE::call("q", RE::Val(RV::Int(1))), RE::call("k", RE::call("p", RE::Val(RV::Int(0))))])),
         ("SameCacheableCallTwice/If", RE::iff(RE::call("k", RE::call("p", RE::Val(RV::Int(0)))), RE::call("k", RE::call("p", RE::Val(RV::Int(0)))), RE::call("k", RE::call("q", RE::Val(RV::Int(0)))))),
         ("CacheableInsideNonCacheable", RE::List(vec![RE::call("q", RE::call("k", RE::Val(RV::Int(1)))), RE::call("q", RE::call("k", RE::Val(RV::Int(1)))), RE::call("k", RE::Val(RV::Int(2)))])),
+        ("SameCacheableCallOnIndexedCall/List", RE::List(vec![RE::call("k", RE::idxf(RE::call("m", RE::Val(RV::Int(1))), "a")), RE::call("k", RE::idxf(RE::call("m", RE::Val(RV::Int(1))), "a"))])),
+        ("SameCacheableCallOnIndexedCall/Add", RE::bin(BinOp::Add, RE::call("k", RE::idxn(RE::idxf(RE::call("m", RE::Val(RV::Int(1))), "l"), 0)), RE::call("k", RE::idxn(RE::idxf(RE::call("m", RE::Val(RV::Int(1))), "l"), 0)))),
+        ("SameCacheableCallOnIndexedProbe", RE::List(vec![RE::call("k", RE::idxf(RE::call("p", RE::Val(RV::Int(0))), "a")), RE::call("k", RE::idxf(RE::call("p", RE::Val(RV::Int(0))), "a"))])),
         ("NestedThenSibling", RE::List(vec![RE::call("q", RE::call("p", RE::Val(RV::Int(1)))), RE::call("q", RE::Val(RV::Int(2))), RE::call("p", RE::Val(RV::Int(3)))])),
     ] {
         out.push(Shape { label: label.to_string(), tree });
@@ -269,6 +277,8 @@ fn shapes(tier: Tier) -> Vec<Shape> {
 
 /// reference environment replaying the recorded answers
 struct ScriptEnv<'a> {
+    /// number of answers consumed so far (calls of `m` consume none)
+    ans_pos: usize,
     /// per-evaluation cache of the cacheable probe `k`
     cache: BTreeMap<RV, RV>,
     answers: &'a [u32],
@@ -285,6 +295,10 @@ impl Env for ScriptEnv<'_> {
         None
     }
     fn call(&mut self, name: &str, arg: &RV) -> RRes {
+        if name == "m" {
+            self.log.push((name.to_string(), arg.clone()));
+            return Ok(fixed_container());
+        }
         if name != "p" && name != "q" && name != "k" {
             return Err(RErr::UnknownUserFunction(name.to_string()));
         }
@@ -295,7 +309,9 @@ impl Env for ScriptEnv<'_> {
         }
         let k = self.log.len();
         self.log.push((name.to_string(), arg.clone()));
-        match self.answers.get(k) {
+        let ai = self.ans_pos;
+        self.ans_pos += 1;
+        match self.answers.get(ai) {
             None => {
                 self.overrun = true;
                 Err(RErr::Unspecified)
@@ -322,6 +338,11 @@ fn make_ruleset(tree: &RE, world: &Arc<Mutex<World>>) -> Result<RuleSet, String>
         let mut g = w.lock().unwrap();
         let k = g.log.len() as u64;
         g.log.push((name.to_string(), RV::from_value(&param)));
+        if name == "m" {
+            // logging, no choice: always the same container
+            let susp = if g.suspend { 1 } else { 0 };
+            return (Ok(fixed_container().to_value()), susp);
+        }
         let a = match &g.chooser {
             Some(c) => c.lock().unwrap().choose(N_ANSWERS),
             None => 0,
@@ -338,6 +359,7 @@ fn make_ruleset(tree: &RE, world: &Arc<Mutex<World>>) -> Result<RuleSet, String>
         .with_rule(Rule::new("r", BTreeMap::new(), expr))
         .and_then(|b| b.with_function(probe("p", false, &handler)))
         .and_then(|b| b.with_function(probe("k", true, &handler)))
+        .and_then(|b| b.with_function(probe("m", false, &handler)))
         // the second probe goes through the boxed registration entry point
         .and_then(|b| b.with_functions(vec![Box::new(probe("q", false, &handler)) as Box<dyn UserFunction + Send + Sync + 'static>]))
         .map(|b| b.build())
@@ -372,7 +394,7 @@ fn run_once(rs: &RuleSet, world: &Arc<Mutex<World>>, ch: Option<SharedChooser>, 
 }
 
 fn check_history(shape_label: &str, tree: &RE, obs: &Obs, log: &[(String, RV)], answers: &[u32], acc: &mut Acc) {
-    let mut env = ScriptEnv { cache: BTreeMap::new(), answers, log: Vec::new(), overrun: false, facts: RV::None };
+    let mut env = ScriptEnv { ans_pos: 0, cache: BTreeMap::new(), answers, log: Vec::new(), overrun: false, facts: RV::None };
     let exp = eval(tree, &mut env);
     acc.count("executions", 1);
     acc.outcome(format!("{}:calls={}", obs.class(), log.len()));
@@ -503,7 +525,7 @@ pub fn replay(case: &serde_json::Value) -> i32 {
         return 2;
     }
     println!("expression : {}", shape.tree.unparse().unwrap_or_default());
-    println!("answers    : {a1:?}  (0=true 1=false 2=none 3=i7 4=failure)");
+    println!("answers    : {a1:?}  (0=true 1=false 2=none 3=i7 4=NaN 5=failure)");
     println!("calls made : {:?}", l1.iter().map(|(n, a)| format!("{n}({})", a.show())).collect::<Vec<_>>());
     println!("result     : {}", o1.show());
     let mut acc = Acc::new();
